@@ -8,6 +8,7 @@
 #include <amgcl/value_type/static_matrix.hpp>
 #include <amgcl/value_type/complex.hpp>
 #include <amgcl/adapter/crs_tuple.hpp>
+#include <amgcl/adapter/block_matrix.hpp>
 #include <Eigen/Dense>
 #include <omp.h>
 
@@ -135,6 +136,17 @@ static void c_copy(const M &A, const char *tag) {
         o.raw("A", J(A, o)).raw("out", J(*all[k], o)); put(o);
     }
 }
+// CRS convert constructor from the block-matrix adapter: the b x b block view of a scalar matrix with
+// sorted rows (structurally incomplete blocks are zero-filled) must be the same operator
+template <int Bs>
+static void c_blockconv(const M &A, const char *tag) {
+    typedef static_matrix<double, Bs, Bs> V;
+    std::vector<ptrdiff_t> ptr(A.ptr, A.ptr + A.nrows + 1), col(A.col, A.col + A.nnz); std::vector<double> val(A.val, A.val + A.nnz);
+    size_t n = A.nrows;
+    backend::crs<V, ptrdiff_t, ptrdiff_t> Bm(adapter::block_matrix<V>(std::tie(n, ptr, col, val)));
+    vr::obj o; o.str("k", "blockconv").str("tag", tag).i("bs", Bs); o.raw("A", J(A, o)).raw("out", J(*expand<Bs>(Bm), o)); put(o);
+}
+
 static void c_gersh(const M &A, const char *tag) {
     double g = backend::spectral_radius<false>(A, 0);
     vr::obj o; o.str("k", "gersh").str("tag", tag).d("out", g); o.raw("A", J(A, o)); put(o);
@@ -173,7 +185,7 @@ static void mode_small() {
             c_product(*A, *B, 1, false, "wide"); c_product(*A, *B, 0, true, "wide");
         }
     }
-    for (unsigned am = 0; am < (1u << 16); ++am) { auto A = vr::mk_pattern(4, 4, am, 0, false); c_pointwise(*A, 2, "small"); }
+    for (unsigned am = 0; am < (1u << 16); ++am) { auto A = vr::mk_pattern(4, 4, am, 0, false); c_pointwise(*A, 2, "small"); if (am % 3 == 0) c_blockconv<2>(*A, "small"); }
     for (unsigned am = 0; am < (1u << 9); ++am) { auto A = vr::mk_pattern(3, 3, am, 0, false); c_diag(*A, "small"); c_copy(*A, "small"); c_pointwise(*A, 3, "small3"); c_pointwise(*A, 1, "small1"); }
     for (unsigned am = 0; am < (1u << 6); ++am) { auto A = vr::mk_pattern(2, 3, am, 1, true); c_copy(*A, "rect"); }
 }
@@ -193,6 +205,8 @@ static void mode_random(uint64_t seed, int reps, int nmax) {
         c_sum(g.range(-2, 2), *A, g.range(-2, 2), *B2, g.coin(), "rand");
         c_scale(*A, g.range(-3, 3), "rand"); c_sort(*A, "rand"); c_gersh(*A, "rand");
         if (r % 4 == 0) c_copy(*A, "rand");
+        { int nb2 = g.range(1, std::max(1, nmax / 2)); auto S2 = vr::random_int(g, 2 * nb2, 2 * nb2, 0.1 + 0.3 * g.unit(), 5, false, g.coin()); c_blockconv<2>(*S2, "rand");
+          int nb3 = g.range(1, std::max(1, nmax / 3)); auto S3 = vr::random_int(g, 3 * nb3, 3 * nb3, 0.1 + 0.3 * g.unit(), 5, false, g.coin()); c_blockconv<3>(*S3, "rand"); }
         int bs = g.range(1, 4), nb = g.range(1, std::max(1, nmax / bs)), mb = g.range(1, std::max(1, nmax / bs));
         auto S = vr::random_int(g, nb * bs, mb * bs, 0.15 + g.unit() * 0.3, 9, false);
         c_pointwise(*S, bs, "rand");
